@@ -90,3 +90,65 @@ Theorem C06_size_dispatch_edge_refuted :
                       c06_nedge g = c06_nface g /\ c06_integrate false g areas a = C06_ok r.
 Proof. exact c06_reject_edge_refuted. Qed.
 Print Assumptions C06_size_dispatch_edge_refuted.
+
+(* ---- round 4 ---- *)
+From Coq Require Import Permutation.
+
+(* additivity over disjoint face sets / sub-grids: the faces 0..n1-1 and the remaining ones *)
+Theorem C06_additive_faces : forall a1 a2 r1 r2,
+  length a1 = length r1 -> c06_dot (a1 ++ a2) (r1 ++ r2) = c06_dot a1 r1 + c06_dot a2 r2.
+Proof. exact c06_dot_app. Qed.
+Print Assumptions C06_additive_faces.
+
+(* invariance under face renumbering (one permutation applied to areas and values) *)
+Theorem C06_face_renumbering : forall areas row areas' row',
+  Permutation (combine areas row) (combine areas' row') -> c06_dot areas row = c06_dot areas' row'.
+Proof. exact c06_dot_renumber. Qed.
+Print Assumptions C06_face_renumbering.
+
+(* invariance under the order of the leading dimensions: transposed input, transposed result *)
+Theorem C06_leading_transpose : forall areas k1 k2 m data data',
+  length areas = m ->
+  (forall i j f, (i < k1)%nat -> (j < k2)%nat -> (f < m)%nat ->
+      nth ((j * k1 + i) * m + f) data' 0 = nth ((i * k2 + j) * m + f) data 0) ->
+  forall i j, (i < k1)%nat -> (j < k2)%nat ->
+    nth (j * k1 + i) (c06_einsum areas [Z.of_nat k2; Z.of_nat k1; Z.of_nat m] data') 0 =
+    nth (i * k2 + j) (c06_einsum areas [Z.of_nat k1; Z.of_nat k2; Z.of_nat m] data) 0.
+Proof. exact c06_leading_transpose. Qed.
+Print Assumptions C06_leading_transpose.
+
+(* dtype promotion: boolean data integrate to exactly the area of the selected faces, integer data
+   scale exactly (the result is the exact sum, nothing is truncated to the input's dtype) *)
+Theorem C06_bool_data : forall areas mask,
+  Forall (fun m => m = 0 \/ m = 1) mask -> c06_dot areas mask = c06_mask_sum areas mask.
+Proof. exact c06_dot_mask. Qed.
+Print Assumptions C06_bool_data.
+Theorem C06_integer_scaling : forall areas row c, c06_dot areas (map (Z.mul c) row) = c * c06_dot areas row.
+Proof. exact c06_dot_scale. Qed.
+Print Assumptions C06_integer_scaling.
+
+(* independence from what the grid stores (face_areas derived, supplied by the source, or assigned) and
+   from any history of integrate / compute_face_areas / face_areas / assignment operations *)
+Theorem C06_history_independent : forall areas_of g dr dor ops s rule order a,
+  c06_integrate_grid areas_of g (c06_grun areas_of dr dor s ops) rule order a =
+  c06_integrate_cur g (areas_of rule order) a.
+Proof. exact c06_history_independent. Qed.
+Print Assumptions C06_history_independent.
+Theorem C06_integrate_keeps_state : forall areas_of dr dor s rule order a,
+  c06_gstep areas_of dr dor s (C06_op_integrate rule order a) = s.
+Proof. exact c06_integrate_keeps_state. Qed.
+Print Assumptions C06_integrate_keeps_state.
+
+(* which dimension is integrated: a last dimension named n_face with n_face entries always is *)
+Theorem C06_face_dim_integrated : forall g areas a,
+  c06_shape a <> [] -> last (c06_dims a) 3 = 0 -> last (c06_shape a) 0 = c06_nface g ->
+  exists r, c06_integrate_cur g areas a = C06_ok r.
+Proof. exact c06_face_dim_integrated. Qed.
+Print Assumptions C06_face_dim_integrated.
+(* PARTIAL: for names other than n_node / n_edge the code still decides by size -- "only dimensions
+   named n_face are integrated" is refuted (a "time" dimension of n_face entries is integrated); not
+   observable inside the property's quantifier (face dimension last) *)
+Theorem C06_only_face_named_dims_refuted_partial :
+  exists g areas a r, last (c06_dims a) 3 = 3 /\ c06_wf a /\ c06_integrate_cur g areas a = C06_ok r.
+Proof. exact c06_only_face_named_dims_refuted. Qed.
+Print Assumptions C06_only_face_named_dims_refuted_partial.
